@@ -34,6 +34,7 @@ func init() {
 		{Name: "strings.genSplit skips one byte too few after a separator", File: "waroot/src/strings/strings.wa", Old: "\t\ta[i] = s[:m+sepSave]\n\t\ts = s[m+len(sep):]", New: "\t\ta[i] = s[:m+sepSave]\n\t\ts = s[m+len(sep)-1:]", Expect: "port-body :: strings.genSplit"},
 		{Name: "bits.TrailingZeros32 of zero", File: "waroot/src/math/bits/bits.wa", Old: "func TrailingZeros32(x: u32) => int {\n\tif x == 0 {\n\t\treturn 32", New: "func TrailingZeros32(x: u32) => int {\n\tif x == 0 {\n\t\treturn 31", Expect: "port-body :: math/bits.TrailingZeros32"},
 		{Name: "floatBits: the post-rounding copy of the overflow block loses the flag", File: "waroot/src/strconv/atof.wa", Old: "\t\t\tmant = 0\n\t\t\texp = 1<<flt.expbits - 1 + flt.bias\n\t\t\toverflow = true\n", New: "\t\t\tmant = 0\n\t\t\texp = 1<<flt.expbits - 1 + flt.bias\n", Expect: "port-goto-inlining :: strconv.decimal.floatBits:overflow"},
+		{Name: "bits.Div64: first correction loop stops one step late", File: "waroot/src/math/bits/bits.wa", Old: "\t\tq1--\n\t\trhat += yn1\n\t\tif rhat >= two32 {", New: "\t\tq1--\n\t\trhat += yn1\n\t\tif rhat > two32 {", Expect: "port-statement :: math/bits.Div64"},
 		{Name: "utf8 continuation mask changed", File: "waroot/src/unicode/utf8/utf8.wa", Old: "maskx = 0b00111111", New: "maskx = 0b00011111", Expect: "std-table :: unicode/utf8.maskx"},
 		{Name: "crc32 Castagnoli polynomial changed", File: "waroot/src/hash/crc32/crc32.wa", Old: "Castagnoli = 0x82f63b78", New: "Castagnoli = 0x82f63b79", Expect: "std-table :: hash/crc32.Castagnoli"},
 		{Name: "hex digit table damaged", File: "waroot/src/encoding/hex/hex.wa", Old: "hextable        = \"0123456789abcdef\"", New: "hextable        = \"0123456789abcdfe\"", Expect: "std-table :: encoding/hex.hextable"},
@@ -298,6 +299,7 @@ func runC14(c *Ctx) {
 	c.Explain = "Decides table agreement of the ported standard-library packages with Go's: every package-level constant or literal table that exists under the same name in the Wa package and in the Go package of the same import path, and whose value was equal when the rule was armed (the frozen instance list c14_instances.txt), still evaluates to the value in GOROOT's sources (go/parser over GOROOT/src, the Wa side read with the repository's parser and re-read as Go expressions; one literal evaluator for both). " +
 		"Names whose values already differed, or that are not literal-only, are not instances (counted in the notes). " +
 		"Rule port-body: every Wa function whose canonical syntax tree (positions, comments, parentheses, receiver spelling and Wa's short type names normalised) equalled the Go function of the same name when the rule was armed (frozen list c14_bodies.txt) still equals the one in GOROOT's sources — agreement of the port with the implementation it was ported from, for every input, follows from the two being the same function. " +
+		"Rule port-statement: for functions that differ from Go's as a whole (ported from another release, adapted to Wa), every top-level statement the two versions shared when the rule was armed is still shared. " +
 		"Rule port-goto-inlining: where Go jumps to a labelled block and the port (Wa has no goto) repeats the block, the port holds at least as many exact copies of the block as Go has ways of reaching it. " +
 		"NOT decided: functions that already differ from this GOROOT's version (ported from another Go release, or adapted to Wa), and the agreement of Wa's expression semantics with Go's (shift counts, C01)."
 	goroot := build.Default.GOROOT
